@@ -828,15 +828,16 @@ namespace Givaro {
     template<typename Any>
     template<typename val_t, template<class, class> class Vector, template <class> class Alloc>
     inline typename GFqDom<Any>::Rep& GFqDom<Any>::init( Rep& r, const Vector<val_t, Alloc<val_t> >& P) const {
-        static Self_t PrimeField(this->_characteristic);
+        // (these objects depend on *this: they must not be function-local statics shared by every field)
+        Self_t PrimeField(this->_characteristic);
         typedef Poly1Dom< Self_t, Dense > PolDom;
-        static PolDom Pdom( PrimeField );
+        PolDom Pdom( PrimeField );
         typedef Poly1PadicDom< GFqDom<Any>, Dense > PadicDom;
-        static PadicDom PAD(Pdom);
+        PadicDom PAD(Pdom);
         Degree d;  Pdom.degree(d, P);
         if (d >= (int64_t)this->_exponent) {
-            static typename PadicDom::Element tmp;
-            static typename PadicDom::Element Irreducible = PAD.radix(tmp, this->_irred);
+            typename PadicDom::Element tmp;
+            typename PadicDom::Element Irreducible = PAD.radix(tmp, this->_irred);
                 // All this was to get the irreducible polynomial
                 // Now we can mod it out
             typename PolDom::Element modP; Pdom.mod(modP, P, Irreducible);
